@@ -209,6 +209,8 @@ def run_case(case):
             if word in wire.CMD_NAMES:
                 word ^= 0x10
             target = rng.randint(0, 4)
+            # what the rest of the header looks like: a header with an unknown command word is typically garbage altogether (a misaligned stream)
+            rest = rng.choice(["kept", "kept", "badsum", "longer", "garbage", "badmagic"])
 
             def before_emit(pkt, raw):
                 if state["done"] is not None:
@@ -216,8 +218,18 @@ def run_case(case):
                 if state["n"] != target:
                     state["n"] += 1
                     return None
-                state["done"] = ("word", word, pkt.cmd)
-                return struct.pack("<I", word) + raw[4:20] + struct.pack("<I", word ^ wire.M32) + raw[24:]
+                state["done"] = ("word", word, pkt.cmd, rest)
+                a0, a1, dlen, dsum, magic = struct.unpack("<IIIII", raw[4:24])
+                magic = word ^ wire.M32
+                if rest == "badsum":
+                    dsum = (dsum + 1 + rng.getrandbits(16)) & wire.M32
+                elif rest == "longer":
+                    dlen = rng.choice([dlen + 1, 0x20202020, wire.M32])
+                elif rest == "garbage":
+                    a0, a1, dlen, dsum, magic = (rng.getrandbits(32) for _ in range(5))
+                elif rest == "badmagic":
+                    magic = rng.getrandbits(32)
+                return struct.pack("<IIIIII", word, a0, a1, dlen, dsum, magic) + raw[24:]
             sim.before_emit = before_emit
             expect = "InvalidCommandError"
         res = r.run()
@@ -238,9 +250,11 @@ def run_case(case):
         elif out.exc_name() != expect:
             viol.append({"mechanism": "wrong-exception-" + kind, "detail": "%s raised %s, expected %s (%r)" % (step["op"], out.brief(120), expect, what[:2])})
         if kind == "corrupt" and what[0] in ("byte", "bit", "zeros-bit") and out.partial:
-            if any(bytes(x) == what[2] for x in out.partial if isinstance(x, (bytes, bytearray))):
-                viol.append({"mechanism": "corrupted-payload-delivered", "detail": "streaming_shell yielded the corrupted payload before raising"})
-        sig = "%s|%s|%s|%s|%s" % (kind, case["impl"], step["op"], what[0], what[1] if kind == "badcmd" else ("%s@%d" % (case["how"], min(what[1], 70))))
+            # the op's payload-carrying packets are its chunks, in order: the altered one is chunk number `target` (an EARLIER, intact chunk
+            # may happen to have the same bytes as the altered payload, which proves nothing)
+            if len(out.partial) > target and isinstance(out.partial[target], (bytes, bytearray)) and bytes(out.partial[target]) == what[2]:
+                viol.append({"mechanism": "corrupted-payload-delivered", "detail": "streaming_shell yielded the corrupted payload (chunk %d) before raising" % target})
+        sig = "%s|%s|%s|%s|%s" % (kind, case["impl"], step["op"], what[0], ("%s/%s" % (what[1], what[3])) if kind == "badcmd" else ("%s@%d" % (case["how"], min(what[1], 70))))
         sample = {"case": case, "altered": [what[0], what[1]], "outcome": out.brief(100)} if case["seed"].endswith(":2") or case["seed"].endswith(":7") else None
         return {"sig": sig, "violations": viol[:5], "stats": stats, "sample": sample}
     finally:
